@@ -2,7 +2,7 @@
 import gen
 
 
-def tiny(variant=0):
+def tiny(variant=0, ntrips=3):
     locs = ["LA", "LB"]
     I = {
         "name": "mc%d" % variant, "profile": "mc", "locs": locs,
@@ -17,7 +17,7 @@ def tiny(variant=0):
         "costs": {"staff": 1, "svc": 2, "mnt": 1, "dh": 3, "idle": 1},
     }
     spec = [("LA", "LB", 8 * 3600, 3600, 150), ("LB", "LA", 9 * 3600, 3600, 40), ("LA", "LB", 10 * 3600 + 1800, 1800, 10)]
-    for i, (o, d, dep, dur, pax) in enumerate(spec):
+    for i, (o, d, dep, dur, pax) in enumerate(spec[:ntrips]):
         I["trips"].append({"id": "t%d" % i, "ty": "T0", "route": "r%d" % i, "seg": "rs%d" % i, "depId": "d%d" % i,
                            "orig": o, "dest": d, "dep": dep, "dur": dur, "dist": 20000 + 1000 * i, "pax": pax,
                            "seated": 5, "limit": -1 if i else 2})
